@@ -33,7 +33,10 @@ Inductive oop :=
 | OCloseAll (err : bool) (byproc : bool)
 | OGoCloser (hid : N)
 | OGoClose (hid : N)
-| ORecv (hid : N) (id : N).
+| ORecv (hid : N) (id : N)
+| OFault (wmode : N).                (* the harness-owned stream changes the way it answers Write (no label of the endpoint):
+                                        0 healthy, 1 (0, closed pipe), 2 (7, error), 3 (0, EOF), 4 (0, nil), 5 five bytes per call,
+                                        6 (len, EOF), 7 blocks until the stream is closed, then (0, closed pipe) *)
 
 (* closer calls, class of the closer's argument (0 never called, 1 nil, 2 error), queue closed, ids received *)
 Definition hobs := (N * N * bool * list N)%type.
@@ -42,7 +45,8 @@ Record ocase := {
   c_ops : list oop;
   c_end : N;                 (* 0: all operations returned; 1: the last one panicked; 2: the last one never returned *)
   c_hs : list hobs;
-  c_sent : list string;      (* frames written on the stream by the endpoint itself *)
+  c_sent : list string;      (* frames the endpoint handed to the stream's Write, whatever Write answered *)
+  c_wire : string;           (* bytes the stream accepted (what the peer received) *)
   c_sclose : N               (* stream.Close() calls *)
 }.
 
@@ -56,6 +60,7 @@ Definition label_of (o : oop) : label :=
   | OGoCloser hid => LGoCloser (N.to_nat hid)
   | OGoClose hid => LGoClose (N.to_nat hid)
   | ORecv hid _ => LRecv (N.to_nat hid)
+  | OFault _ => LRemove (-1)          (* not used: replay skips OFault *)
   end.
 
 Definition dcode (d : dres) : N := match d with DNil => 0 | DNoMatch => 1 | DBlocked => 2 | DNoHandler => 3 end.
@@ -78,16 +83,32 @@ Definition ret_ok (s : state) (o : oop) (r : ret) : bool :=
   | _, _ => false
   end.
 
-(* 0 ran to the end, 1 panic at the last operation, 2 deadlock at the last operation, 3 disagreement *)
-Fixpoint replay (s : state) (ops : list oop) : N * state :=
+(* what the harness-owned stream accepts of one frame under write fault [wmode] (basic.WriteN gives up at the
+   first error or call without progress) *)
+Definition wire_part (wmode : N) (b : bytes) : bytes :=
+  match wmode with
+  | 0 | 5 | 6 => b
+  | 2 => firstn 7%nat b
+  | _ => []
+  end.
+
+(* 0 ran to the end, 1 panic at the last operation, 2 deadlock at the last operation, 3 disagreement.
+   The write fault in force does not influence the endpoint's steps (dispatch ignores what Send returns):
+   it only decides which part of the frames handed to Send reaches the wire. *)
+Fixpoint replay (s : state) (wmode : N) (wire : bytes) (ops : list oop) : N * state * bytes :=
   match ops with
-  | [] => (0, s)
+  | [] => (0, s, wire)
+  | OFault m :: r => replay s m wire r
   | o :: r =>
       match step s (label_of o) with
-      | Run s' x => if ret_ok s o x then replay s' r else (3, s)
-      | Panic _ => match r with [] => (1, s) | _ => (3, s) end
-      | Deadlock => match r with [] => (2, s) | _ => (3, s) end
-      | Disabled => (3, s)
+      | Run s' x =>
+          if ret_ok s o x then
+            let fresh := skipn (List.length (st_sent s)) (st_sent s') in
+            replay s' wmode (wire ++ List.concat (map (fun m => wire_part wmode (enc_msg m)) fresh)) r
+          else (3, s, wire)
+      | Panic _ => match r with [] => (1, s, wire) | _ => (3, s, wire) end
+      | Deadlock => match r with [] => (2, s, wire) | _ => (3, s, wire) end
+      | Disabled => (3, s, wire)
       end
   end.
 
@@ -120,9 +141,10 @@ Definition sent_ok (ms : list msg) (fs : list string) : bool :=
   eqb_bytes (List.concat (map enc_msg ms)) (List.concat (map unhex fs)).
 
 Definition case_ok (c : ocase) : bool :=
-  let '(e, s) := replay init (c_ops c) in
+  let '(e, s, wire) := replay init 0 [] (c_ops c) in
   (e =? c_end c) &&
   (if e =? 0 then all2 hobs_ok (st_hs s) (c_hs c) && sent_ok (st_sent s) (c_sent c) &&
+                  eqb_bytes wire (unhex (c_wire c)) &&
                   (N.of_nat (st_sclose s) =? c_sclose c)
    else true).
 
